@@ -130,7 +130,7 @@ def run_check(pid, tier):
         failed.append(('theorem', f'Properties/{pid}.v', th['log'][-1500:]))
     ext_status = extract.main()
     bridge_obs = getattr(mod, 'BRIDGE', [])
-    bres = C.build_bridge(bridge_obs) if ok and bridge_obs else []
+    bres = C.build_bridge(bridge_obs, getattr(mod, 'BRIDGE_IMPORTS', '')) if ok and bridge_obs else []
     obligations += len(bridge_obs)
     for name, bok, blog in bres:
         if not bok:
